@@ -9,13 +9,15 @@
    directory validates or is reported by check(), (4) a directory validates only with a state point from the
    job's history.
 
-   Status: crash_safe_init / _rekey / _move FULL (all crash points incl. torn writes, both write protocols);
-   fault_safe_move FULL and for EVERY fault plan (single, double, ... faults);
+   Status: crash_safe_init / _rekey / _move / _clone / _remove / _clear FULL (all crash points incl. torn
+   writes, both write protocols, job trees of any shape and listing order);
+   fault_safe_move FULL and for EVERY fault plan (single, double, ... faults): exception => pre-state;
+   fault_safe_remove / _clear FULL for every fault plan (CInv; removals destroy data by design);
    fault_clone REFUTED (confirmed defect, known finding 1);
-   crash_safe_clone / _remove / _clear and fault_safe_init / _rekey are NOT proved (unbounded recursion over
-   the job's tree resp. the larger case analysis): for them only the correspondence speaks
-   (every crash prefix and every single fault of the generated scenarios, oracle evaluated in Coq). *)
-From SV Require Import Base Json MD5 Canon FS Proc Crash CorrC11 C11Proofs.
+   fault_safe_init / _rekey / _clone (the non-refuted part) are NOT proved (larger case analysis): for them only the
+   correspondence speaks (every single fault and sampled double faults of the generated scenarios, oracle
+   evaluated in Coq). *)
+From SV Require Import Base Json MD5 Canon FS Proc Crash CorrC11 C11Proofs C11Remove C11Clone.
 
 (* the prefix induction principle of the crash semantics *)
 Theorem C11_prefix_induction : forall A (I : prog A -> fs -> Prop) (Q : fs -> Prop),
@@ -64,6 +66,35 @@ Theorem C11_crash_safe_move : forall frepr wss f0 ws dws i atomic g,
 Proof. exact crash_safe_move_thm. Qed.
 Print Assumptions C11_crash_safe_move.
 
+(* Project.clone into ANOTHER project (shutil.copytree over a job tree of any shape): nothing outside the new
+   directory changes, the new directory is absent or a directory, and its state point file is absent, not
+   parseable (empty / torn) or the complete copy of the source's — so it never validates with anything but
+   the source's state point; if the destination exists nothing happens at all *)
+Theorem C11_crash_safe_clone : forall frepr wss f0 ws dws i atomic g,
+  WInv frepr wss f0 -> In ws wss -> In dws wss -> ws <> dws -> In i (job_dirs f0 ws) ->
+  crash_states (op_prog frepr atomic (KClone ws i dws)) f0 g ->
+  CInv frepr (KClone ws i dws) wss f0 g.
+Proof. exact crash_safe_clone_thm. Qed.
+Print Assumptions C11_crash_safe_clone.
+
+(* Job.remove (shutil.rmtree over a job tree of any shape, any listing order): every crash state arises from
+   the pre-state by deleting entries below the job directory only *)
+Theorem C11_crash_safe_remove : forall frepr wss f0 ws i atomic g,
+  WInv frepr wss f0 -> In ws wss -> In i (job_dirs f0 ws) ->
+  crash_states (op_prog frepr atomic (KRemove ws i)) f0 g ->
+  CInv frepr (KRemove ws i) wss f0 g.
+Proof. exact crash_safe_remove_thm. Qed.
+Print Assumptions C11_crash_safe_remove.
+
+(* Job.clear: deletions below the job directory, then the document rewritten through its temp file (torn
+   temp file included); the state point file is never touched *)
+Theorem C11_crash_safe_clear : forall frepr wss f0 ws i atomic g,
+  WInv frepr wss f0 -> In ws wss -> In i (job_dirs f0 ws) ->
+  crash_states (op_prog frepr atomic (KClear ws i)) f0 g ->
+  CInv frepr (KClear ws i) wss f0 g.
+Proof. exact crash_safe_clear_thm. Qed.
+Print Assumptions C11_crash_safe_clear.
+
 (* Job.move under EVERY fault plan (any number of failing calls, any errnos): CInv holds, a normal return
    means the move is complete, an exception means the tree is exactly the pre-state *)
 Theorem C11_fault_safe_move : forall frepr wss f0 ws dws i atomic plan,
@@ -76,6 +107,20 @@ Theorem C11_fault_safe_move : forall frepr wss f0 ws dws i atomic plan,
   end.
 Proof. exact fault_safe_move_thm. Qed.
 Print Assumptions C11_fault_safe_move.
+
+(* Job.remove / Job.clear under EVERY fault plan: a failing call has no effect, so the state is still the
+   pre-state minus deletions below the job directory (plus the document rewrite): CInv *)
+Theorem C11_fault_safe_remove : forall frepr wss f0 ws i atomic plan,
+  WInv frepr wss f0 -> In ws wss -> In i (job_dirs f0 ws) ->
+  CInv frepr (KRemove ws i) wss f0 (fst (run_fault plan 0 (op_prog frepr atomic (KRemove ws i)) f0)).
+Proof. exact fault_safe_remove_thm. Qed.
+Print Assumptions C11_fault_safe_remove.
+
+Theorem C11_fault_safe_clear : forall frepr wss f0 ws i atomic plan,
+  WInv frepr wss f0 -> In ws wss -> In i (job_dirs f0 ws) ->
+  CInv frepr (KClear ws i) wss f0 (fst (run_fault plan 0 (op_prog frepr atomic (KClear ws i)) f0)).
+Proof. exact fault_safe_clear_thm. Qed.
+Print Assumptions C11_fault_safe_clear.
 
 (* Project.clone: REFUTED for faults — a write error on a data file raises, yet leaves a destination that
    validates, that check() does not report and whose data is not intact (known finding 1; the harness
